@@ -148,7 +148,11 @@ impl Scn {
                 return;
             }
         };
-        let view = inst_view(&run.store, &ty(), &inst, t, 0);
+        let mut view = inst_view(&run.store, &ty(), &inst, t, 0);
+        // a record withdrawn by a goodbye must not be used, even during its one second of grace
+        view.srvs.retain(|r| r.last_ttl != 0);
+        view.addrs.retain(|r| r.last_ttl != 0);
+        view.txts.retain(|r| r.last_ttl != 0);
         let ctx = |run: &Run| format!("at +{}: {:?}; delivered {:?}", t - T0, r, run.store.v.iter().map(|d| (d.t - T0, d.ifi, d.rec.summary())).collect::<Vec<_>>());
         if r.host.is_empty() || r.addrs.is_empty() {
             run.viols.push(viol("C03|resolved-without-host-or-address", ctx(run)));
